@@ -84,6 +84,18 @@ Proof.
   unfold plan_log. destruct (plan_spl _ _ _ _ _ _ _); intro H; inversion H; reflexivity.
 Qed.
 
+Lemma plan_metric_is_root s fin p : plan_metric s fin = Some p -> is_root p = true.
+Proof.
+  unfold plan_metric. intro H.
+  match type of H with bind ?x _ = _ => destruct x as [[[[cur lj] li] fp]|] end; cbn [bind] in H; [|discriminate H].
+  inversion H. reflexivity.
+Qed.
+Lemma plan_script_is_root s fin p : plan_script s fin = Some p -> is_root p = true.
+Proof.
+  destruct s; cbn [plan_script]; intro H;
+    first [exact (plan_log_is_root _ _ _ H) | exact (plan_metric_is_root _ _ _ H) | discriminate H].
+Qed.
+
 (* ---------------------------------------------------------------- live tail *)
 Lemma tail_is_fresh p c :
   is_root p = true -> forall ws st, run_tail p c ws st = fresh_run p c ws.
